@@ -20,6 +20,16 @@ claimed = {
    text="Every token, every *ast.Position reachable by reflection from parsed documents, loaded schemas and validated documents, and every location of every syntax, schema and validation error is checked: offset inside the source, start of a token (per ref/reflex), line = 1 + LF/CR/CRLF terminators before it, column = characters since line start + 1, and the named file is the source the text came from. Separators (LF, CR, CRLF, BOM, tabs, commas, multi-byte comments, multi-line descriptions) are placed exhaustively at ≤2 gaps.",
    note="Trusted: ref/reflex and the character/line table. Node positions are judged as the property states (some token start, consistent line/column, right source), not against an expected token per node type.",
    ref="DESIGN.md §4 C04"),
+ "C05": dict(
+   technique=T + "every token sequence ≤4/5 tokens over 26 token classes and ≤5/7 over 16 core classes (acceptance ⇔ membership in the enumerated language of a reference grammar held as data; tree equality), every single-token mutation (delete, duplicate, swap, substitute, insert) of every sentence ≤6/7 tokens (full-name grammar) and ≤9/12 tokens (G¹) and of long profile documents, every sentence ≤5/7 tokens under ≤2 non-default separators at every pair of gaps",
+   text="The executable grammar (Oct 2021 + fragment variables) is held as data in ref/refgrammar with two independent generic consumers: a bottom-up enumerator (all sentences ≤ n tokens with their trees) and an all-paths memoised recogniser (arbitrary length). Every enumerated token sequence is parsed by the real ParseQuery; verdict and canonical tree projection must equal the model's. The edit-distance-1 neighbourhood of the language (all single-token mutations of all short sentences and of long profile documents that contain every construct and constant context) is decided by the recogniser. Ignored tokens: every placement of ≤2 separators (comma, LF, CR, CRLF, tab, BOM, comments, nothing) must leave the tree unchanged.",
+   note="Trusted: ref/refgrammar (self-checked on every run: enumerator and recogniser must agree on every sequence ≤3 tokens and every sentence ≤6 tokens; replayed against parser/query_test.yml) and ref/reflex for tokenisation. Token classes stand for all tokens of their class; the empty document is undecided.",
+   ref="DESIGN.md §4 C05"),
+ "C06": dict(
+   technique=T + "every token sequence ≤4/5 tokens over 38 token classes and ≤5/6 over 20 core classes (acceptance ⇔ membership in the enumerated language; tree equality), every single-token mutation (delete, duplicate, swap, substitute, insert) of every sentence ≤4/5 (full-name) and ≤7/9 (G¹) tokens and of long profile documents holding every constant context, ≤2 separators at every pair of gaps, every ordered pair/triple of short documents as separate sources × every built-in flag assignment",
+   text="As C05 for the type-system grammar (definitions, extensions, descriptions, constant directives and defaults) against ParseSchema; additionally ParseSchemas over 2–3 sources must equal the tree of the concatenated token sequence and every definition/extension must carry the BuiltIn flag of its own source. A recorded defect (enum values true/false/null accepted by the parser) is excused only where the grammar with exactly that defect emulated derives exactly the parser's tree.",
+   note="Trusted: ref/refgrammar (self-checked; replayed against parser/schema_test.yml) and ref/reflex. Token classes stand for all tokens of their class; the empty document is undecided.",
+   ref="DESIGN.md §4 C06"),
 }
 checks = []
 for i in ids:
